@@ -248,6 +248,10 @@ func (in *Interp) svCall(fr *Frame, name string, args []Value, fn *ssa.Function)
 		return int64(len(in.events))
 	case "Steps":
 		return int64(in.steps)
+	case "Cost":
+		s0 := in.steps
+		in.callValue(fr, args[0], nil)
+		return int64(in.steps - s0)
 	case "ConcreteInt":
 		// case-split a symbolic int over [lo,hi]
 		t, ok := args[0].(*Term)
